@@ -15,7 +15,7 @@ REAL = ['onl.netdev.wire.Wire', 'onl.netdev.wire.Cable', 'onl.sim kernel']
 STUBS = ['injector, taps, endpoints, scripted delay distribution, ScriptedRandom replacing onl.netdev.wire.random']
 ASSUMPTIONS = ['the n-th packet taken from the wire consumes the next loss draw (if a loss rate is set) and, if kept, the '
                'next delay draw; a packet is lost iff draw < p', 'FLOAT workloads: relative tolerance 1e-9 on delivery times']
-PROBES = ['later_packet_shorter_delay', 'zero_delay', 'lost_between_delivered', 'held_back_by_predecessor', 'cable',
+PROBES = ['two_sources_same_ids', 'later_packet_shorter_delay', 'zero_delay', 'lost_between_delivered', 'held_back_by_predecessor', 'cable',
           'loss_rate_one', 'loss_rate_zero']
 
 
@@ -40,7 +40,10 @@ def gen(rng, tier):
     case = {'engine': 'N', 'mode': mode, 'delays': delays, 'loss': loss,
             'loss_draws': [rng.random() for _ in range(16)],
             'workload': [[ts[k], rng.randint(0, 2), rng.choice([64, 512, 1500])] for k in range(n)]}
-    if rng.random() < 0.25:
+    if rng.random() < 0.3:
+        # a second source on the same wire: its packets carry the same ids 1, 2, ... as the first one's
+        case['workload_b'] = [[t, 2, 200] for t in gen_times(rng, rng.randint(1, 15), mode)]
+    elif rng.random() < 0.25:
         case['cable'] = True
         case['workload2'] = [[t, 1, 100] for t in gen_times(rng, rng.randint(1, 15), mode)]
     return case
@@ -104,7 +107,10 @@ def run(case):
             w.pnames[wr.action] = 'w1'
             wr.out = OutTap(w, 'w1', wr, Recorder(w, 'sink'))
             wires['w1'] = wr
-            start_injector(w, InTap(w, 'w1', wr), [tuple(x) for x in case.get('workload', [])])
+            tap = InTap(w, 'w1', wr)
+            start_injector(w, tap, [tuple(x) for x in case.get('workload', [])])
+            if case.get('workload_b'):
+                start_injector(w, tap, [tuple(x) for x in case.get('workload_b', [])], src='srcB')
         w.run(max_steps=20000)
     finally:
         wire_mod.random = saved
@@ -117,6 +123,8 @@ def run(case):
         nontrivial = nontrivial or nt
     if case.get('cable'):
         stats['cable'] = 1
+    if case.get('workload_b') and not case.get('cable'):
+        stats['two_sources_same_ids'] = 1
     for r in w.log:
         if r[0] == 'ERR':
             viol.append(('C10.5/%s' % (r[4][1] if isinstance(r[4], tuple) and len(r[4]) > 1 else 'exc'), 'the run raised %r' % (r[4],)))
